@@ -1,4 +1,5 @@
 import Model.Geometry
+import Proofs.GeoSound
 import Model.Generated
 /-!
 # C08 — pasteability: geometry and relay bookkeeping
